@@ -250,7 +250,14 @@ def generate_playback(h, timeout_s, mem_gb):
         return ''
     out = p.stdout
     tests = re.findall(r'```\n(.*?)```', out, re.S)
-    return '\n'.join(tests)
+    seen, uniq = set(), []
+    for t in tests:
+        m = re.search(r'fn (kani_concrete_playback_\w+)\(', t)
+        name = m.group(1) if m else t
+        if name not in seen:
+            seen.add(name)
+            uniq.append(t)
+    return '\n'.join(uniq)
 
 
 def confirm_violation(prop, h, o, timeout_s, mem_gb):
